@@ -520,6 +520,8 @@ def r01_14(ctx: Ctx) -> None:
 
 
 def run(ctx: Ctx) -> None:
+    from . import c04 as _c04s
+    _c04s.r04_18(ctx, rule="R01.15")  # the decoder's predicates say what their names say
     r01_14(ctx)
     r01_13(ctx)
     r01_12(ctx)
